@@ -4,12 +4,13 @@ package main
 // postcondition checks, ghost fields and type invariants.
 
 import (
-	"go/ast"
 	"fmt"
+	"go/ast"
 	"go/constant"
 	"go/token"
 	"go/types"
 	"math/big"
+	"sort"
 	"strings"
 
 	"golang.org/x/tools/go/ssa"
@@ -205,6 +206,20 @@ func (x *VC) ev(e *SExpr, env *SEnv) *Val {
 	case "cast":
 		v := x.ev(e.Args[0], env)
 		t := x.resolveType(e.Name, env.pkg)
+		if _, isSl := t.Underlying().(*types.Slice); isSl && v.K == KScalar {
+			if ub := x.unboxSlice(v.T, t); ub != nil {
+				return ub
+			}
+		}
+		if _, isB := t.Underlying().(*types.Basic); isB && v.K == KScalar && v.S == "Int" {
+			// a boxed scalar (string, integer, bool) seen as its value
+			if _, fromIface := v.GT.Underlying().(*types.Interface); fromIface {
+				if bs := x.sortOf(t); bs != "" {
+					_, ub := x.boxFns(t)
+					return &Val{K: KScalar, T: "(" + ub + " " + v.T + ")", S: bs, GT: t}
+				}
+			}
+		}
 		return &Val{K: KScalar, T: v.T, S: v.S, GT: t}
 	case "typeis":
 		v := x.ev(e.Args[0], env)
@@ -243,6 +258,9 @@ func (x *VC) ev(e *SExpr, env *SEnv) *Val {
 				decls = append(decls, "("+name+" "+x.idxSort()+")")
 				ranges = append(ranges, x.cmpS("<=", sl.Off, name), x.cmpS("<", name, x.addS(sl.Off, sl.Len)))
 				ev := &Val{K: KScalar, T: sSel(sl.Arr, name), S: sl.ES, GT: et}
+				if et != nil && x.dtSort(et) != "" && sl.ES == x.dtSort(et) {
+					ev = x.unpackStruct(sSel(sl.Arr, name), et, env.cur)
+				}
 				ne.bound[qv.Name] = ev
 				continue
 			}
@@ -278,11 +296,18 @@ func (x *VC) ev(e *SExpr, env *SEnv) *Val {
 			}
 		}
 		if len(e.Args) > 1 {
+			var groups []string
 			var ts []string
 			for _, t := range e.Args[1:] {
+				if t.Op == "trigsep" {
+					groups = append(groups, ":pattern ("+strings.Join(ts, " ")+")")
+					ts = nil
+					continue
+				}
 				ts = append(ts, patternTerm(x.ev(t, &ne).T))
 			}
-			bt = "(! " + bt + " :pattern (" + strings.Join(ts, " ") + "))"
+			groups = append(groups, ":pattern ("+strings.Join(ts, " ")+")")
+			bt = "(! " + bt + " " + strings.Join(groups, " ") + ")"
 		}
 		return bval("(" + e.Op + " (" + strings.Join(decls, " ") + ") " + bt + ")")
 	}
@@ -482,6 +507,19 @@ func (x *VC) ghostSort(s string) string {
 func (x *VC) ghostComp(n *types.Named, g *GhostField) *Comp {
 	key := "F|" + shortTypeFull(n) + "|" + g.Field
 	return x.comp(key, "Int", x.ghostSort(g.Sort))
+}
+
+// isLogGhost: component key of a `ghost log field G.x` (frame-exempt)
+func (x *VC) isLogGhost(k string) bool {
+	if !strings.HasPrefix(k, "G|") {
+		return false
+	}
+	for _, g := range x.eng.db.Ghosts {
+		if g.Log && g.Type == "G" && "G|"+g.Field == k {
+			return true
+		}
+	}
+	return false
 }
 
 func (x *VC) ghostGlobal(key string) *Comp {
@@ -915,11 +953,22 @@ func (x *VC) evCall(e *SExpr, env *SEnv) *Val {
 					switch prm.Type {
 					case "mathint":
 						v = &Val{K: KScalar, T: x.mathLit(v.Lit), S: "Int", GT: types.Typ[types.UntypedInt]}
-					case "int":
+					case "int", "interface{}", "any":
 						v = &Val{K: KScalar, T: x.ilit(v.Lit.Int64()), S: x.idxSort(), GT: tInt}
 					default:
 						t := x.resolveType(prm.Type, ne.pkg)
 						v = x.scalar(x.intLit(v.Lit, t), t)
+					}
+				}
+				// a scalar handed to an interface-typed parameter is boxed, as Go does at a call
+				if prm.Type == "interface{}" || prm.Type == "any" {
+					if v.K == KScalar && v.GT != nil {
+						if _, isI := v.GT.Underlying().(*types.Interface); !isI {
+							if _, isB := v.GT.Underlying().(*types.Basic); isB && x.sortOf(v.GT) != "" {
+								bx, _ := x.boxFns(v.GT)
+								v = &Val{K: KScalar, T: "(" + bx + " " + v.T + ")", S: "Int", GT: types.NewInterfaceType(nil, nil)}
+							}
+						}
 					}
 				}
 				ne.vars[prm.Name] = v
@@ -1141,10 +1190,21 @@ func (fr *Frame) loopVars(h *ssa.BasicBlock, st *State) map[string]*Val {
 		}
 	}
 	// phis of this and enclosing headers, by source name
+	// (outermost first, so that the innermost loop's variable of a given name wins; the variable of loop k is
+	// always reachable as name$k)
+	var hbs []*ssa.BasicBlock
 	for hb := range fr.headers {
-		if hb != h && !hb.Dominates(h) {
-			continue
+		if hb == h || hb.Dominates(h) {
+			hbs = append(hbs, hb)
 		}
+	}
+	sort.Slice(hbs, func(i, j int) bool {
+		if hbs[i] == hbs[j] {
+			return false
+		}
+		return hbs[i].Dominates(hbs[j])
+	})
+	for _, hb := range hbs {
 		for _, ins := range hb.Instrs {
 			phi, ok := ins.(*ssa.Phi)
 			if !ok {
@@ -1152,6 +1212,7 @@ func (fr *Frame) loopVars(h *ssa.BasicBlock, st *State) map[string]*Val {
 			}
 			if v, ok := fr.vals[phi]; ok && phi.Comment != "" {
 				vars[phi.Comment] = v
+				vars[fmt.Sprintf("%s$%d", phi.Comment, fr.loopOrd[hb])] = v
 			}
 		}
 	}
@@ -1567,7 +1628,7 @@ func (fr *Frame) loopHeader(h *ssa.BasicBlock, st *State, reach string) (*State,
 	}
 	// (2b) automatic frame invariant: components outside the contract's modifies clause change only
 	// at objects allocated since function entry (checked again on every back edge)
-	if fr.top && x.c != nil && !x.c.ModAll && !all {
+	if fr.top && x.c != nil && !x.c.ModAll && x.c.Trusted == "" && !all {
 		auto := fr.autoFrameKeys(keys, fr.loopEnv(h, nst))
 		for _, k := range auto {
 			cp := x.comps[k]
@@ -1624,7 +1685,7 @@ func (fr *Frame) autoFrameKeys(keys []string, env0 *SEnv) []string {
 	var out []string
 	for _, k := range keys {
 		cp, ok := x.comps[k]
-		if !ok || allowed[k] || cp.Idx != "Int" || strings.HasPrefix(k, "F|strings.Builder|") {
+		if !ok || allowed[k] || cp.Idx != "Int" || strings.HasPrefix(k, "F|strings.Builder|") || x.isLogGhost(k) {
 			continue
 		}
 		fr.autoExcept[k] = except[k]
@@ -1686,8 +1747,8 @@ func (x *VC) havocVal(v *Val, hint string) *Val {
 		r.Len = x.declare("hv_"+hint+"_len", x.idxSort())
 		x.fact(sAnd(x.cmpS("<=", x.ilit(0), r.Len), x.cmpS("<=", x.ilit(0), r.Off)))
 		if x.mode == "math" {
-			x.fact("(<= "+r.Len+" 4611686018427387904)")
-			x.fact("(<= "+r.Off+" 4611686018427387904)")
+			x.fact("(<= " + r.Len + " 4611686018427387904)")
+			x.fact("(<= " + r.Off + " 4611686018427387904)")
 		}
 		return r
 	case KStruct:
@@ -1791,19 +1852,27 @@ func (x *VC) checkEnsures(fr *Frame, res []*Val, st *State, reach, pos string) {
 	for _, g := range x.c.GhostEx {
 		x.ghostAssign(g, env, st)
 	}
-	for i, e := range x.c.Ensures {
+	ens := x.c.Ensures
+	kind := "ensures"
+	if x.c.Trusted != "" {
+		// a trusted contract: its `ensures` are assumed (driver / library semantics); what is proved on the body
+		// are its `checks` clauses (typically: which query is sent, which errors are reported)
+		ens = x.c.Checks
+		kind = "checks"
+	}
+	for i, e := range ens {
 		c := x.evalSpec(e.E, env)
 		lbl := e.Label
 		if lbl == "" {
 			lbl = fmt.Sprintf("%d", i)
 		}
-		o := x.addObl("ensures", lbl, pos, reach, c.T)
+		o := x.addObl(kind, lbl, pos, reach, c.T)
 		if o != nil {
 			o.Note = e.Src
 		}
 	}
 	// frame: components outside `modifies` are unchanged
-	if !x.c.ModAll && !x.c.Lemma {
+	if !x.c.ModAll && !x.c.Lemma && x.c.Trusted == "" {
 		allowed := map[string]bool{"alloc": true}
 		allowedAt := map[string][]string{}
 		oldEnv := env.with(fr.entrySt)
@@ -1822,7 +1891,7 @@ func (x *VC) checkEnsures(fr *Frame, res []*Val, st *State, reach, pos string) {
 			}
 		}
 		for _, k := range x.compOrder {
-			if allowed[k] || strings.HasPrefix(k, "F|strings.Builder|") {
+			if allowed[k] || strings.HasPrefix(k, "F|strings.Builder|") || x.isLogGhost(k) {
 				continue
 			}
 			cp := x.comps[k]
